@@ -1,6 +1,6 @@
 """C11 - GNU hash lookup: soundness clause, lookup linkage, hash-function form."""
 from ..engine import analyze_fn, program
-from ..terms import T, pp
+from ..terms import T, Term, pp
 from .. import prov
 from ..prov import norm, show, P, F_, C
 from ..hashrules import soundness, gnu_hash_form, fact_norms, wh, walk_exits, range_of_next
@@ -46,6 +46,20 @@ def run(ctx, rep):
             if not rep.require(bool(outs), "linkage", "find:some" + kk, w, "has a symbol-yielding outcome for %s" % cname, "find never yields a symbol for %s" % cname):
                 continue
             st0 = outs[0]
+            # the width may be written 8 * W::size_for(self.class) in a helper generic over the word type: with W concrete
+            # (u32 / u64, whose size_for is constant) that is the literal again
+            from ..terms import rebuild
+            from ..engine import State
+            mp = {}
+            for f in st0.facts:
+                for y in f[1:]:
+                    if isinstance(y, Term):
+                        for x in y.subterms():
+                            if x.op == "call" and x.args[0] == "parse::ParseAt::size_for" and x.args[1] and x.args[1][0] in ("u32", "u64") \
+                                    and len(x.args[2]) == 1 and x.args[2][0] is cls_term:
+                                mp[x] = T.const("usize", 4 if x.args[1][0] == "u32" else 8)
+            if mp:
+                st0 = State(st0.env, frozenset(tuple(rebuild(y, mp) if isinstance(y, Term) else y for y in f) for f in st0.facts))
             fs = fact_norms(st0)
             word = ("payload", ("call", "parse::ParsingTable::get",
                                 (("agg", "parse::ParsingTable", "ParsingTable", (F_(me, "endian"), F_(me, "class"), F_(me, "bloom"), ("agg", "marker::PhantomData", "PhantomData", ()))),
